@@ -129,6 +129,10 @@ def run_case(spec):
             if ctx["tags"] != e["tags"]:
                 vs.append(V("roundtrip", "tags", "tags at outcome %r, reporter had %r" % (sorted(ctx["tags"]), sorted(e["tags"]))))
             st_time, out_time = start[2]["time"], ctx["time"]
+            for got_t, sent_t in ((st_time, e["start"]), (out_time, e["stop"])):
+                # the very value: same instant and same UTC offset, microseconds included
+                if sent_t is not None and got_t is not None and got_t == sent_t and got_t.isoformat() != sent_t.isoformat():
+                    vs.append(V("roundtrip", "time-converted", "time %r came back as %r" % (sent_t.isoformat(), got_t.isoformat())))
             if e["start"] is not None and st_time != e["start"]:
                 vs.append(V("roundtrip", "start-time", "start time %r, supplied %r" % (st_time, e["start"])))
             if e["stop"] is not None and out_time != e["stop"]:
